@@ -8,11 +8,12 @@ bounds list, the reader is the list of records, the loops are structural recursi
 follows the Rust text of
 
 * `read_line_with_eol`        (read_utils.rs:16-45)   → `LinesLoop.readLineWithEol`
-* `cut_lines_forward_only`    (cut_lines.rs:10-115)   → `cutLinesForwardOnlyLoop`
-* `cut_lines`                 (cut_lines.rs:117-137)  → `LinesLoop.cutLinesLit`
-* `read_and_cut_lines`        (cut_lines.rs:139-157)  → `readAndCutLinesLoop`
+* `cut_lines_forward_only`    (cut_lines.rs:10-127)   → `cutLinesForwardOnlyLoop`
+* `cut_lines`                 (cut_lines.rs:129-149)  → `LinesLoop.cutLinesLit`
+* `read_and_cut_lines`        (cut_lines.rs:151-169)  → `readAndCutLinesLoop`
 
-statement by statement (the numbers in the comments are the lines of the Rust files).
+statement by statement (the numbers in the comments are the lines of the Rust files at commit
+9782769 of `/repo`).
 `Tuc.Props.LinesLoop` proves that they agree with `Tuc.Model.Lines` on every input.
 
 Conventions (those of `Tuc.Model.FastLoop` / `Tuc.Model.StreamLoop`)
@@ -24,17 +25,21 @@ Conventions (those of `Tuc.Model.FastLoop` / `Tuc.Model.StreamLoop`)
   UTF-8 check of `std` (`Err(InvalidData)`, nothing appended, when the bytes are not UTF-8);
   `read_to_end` hands out everything;
 * the local variables keep their Rust names (camelCase) and live in one record `Vars`;
-  `line_idx` is an **`i32`** (its type is inferred from `b.matches(line_idx)`, l.46), so
-  `line_idx += 1` (l.20) is `FastLoop.checkedAddI32`: it overflows on the 2³¹-th line that is read
-  (panic in the debug build; the release build wraps to `i32::MIN`); `bounds_idx += 1` on `usize`
-  is unbounded (project convention);
+  `line_idx` is an **`i32`** (l.18) advanced with `line_idx.checked_add(1)` (l.23, `i32CheckedAdd`:
+  `None` when the sum does not fit); once it cannot grow any more the flag `past_last_index`
+  (l.19, l.25) is set and stays set, `line_idx` keeps the value `i32::MAX`, a bound then matches
+  iff it is open-ended (l.52-53) and is never taken for exhausted (l.66).  (History: up to commit
+  103500e l.20 was `line_idx += 1`, which panicked in the debug build and wrapped to `i32::MIN`
+  in the release build on the 2³¹-th line — every later line was silently dropped; found with the
+  first version of this file, repaired by commit 9782769.)  `bounds_idx += 1` on `usize` is
+  unbounded (project convention);
 * `stdout: &mut B` is a fault-free writer: a statement that writes yields the `Run` of what it
   wrote; `a.seq b` is "`a`, then — unless `a` ended the run — `b`" (the `?` operator); an `Err`
   (`line?` on invalid UTF-8, `bail!`) is `Run.fail`, a Rust panic `Run.panic`;
-* `opt.bounds.get(i)` is `list[i]?`, its `.unwrap()` (l.30) is *checked* (`Run.panic` on `None`);
+* `opt.bounds.get(i)` is `list[i]?`, its `.unwrap()` (l.36) is *checked* (`Run.panic` on `None`);
 * each `while` whose progress is not structural takes fuel and yields `Run.hang` when it runs out:
-  the loop over the reader (l.19: one unit per call of `read_line_with_eol`; `len + 1` units), the
-  loop over the bounds for one line (l.29; `bounds.len() + 1` units) and the epilogue (l.78;
+  the loop over the reader (l.22: one unit per call of `read_line_with_eol`; `len + 1` units), the
+  loop over the bounds for one line (l.35; `bounds.len() + 1` units) and the epilogue (l.90;
   `bounds.len() + 1` units).  `Tuc.Props.LinesLoop` proves that the fuel is never used up;
 * library / callee models: `UserBounds::matches` → `UserBounds.matches`, `is_forward_only` →
   `isForwardOnly`, `std::str::from_utf8` / `String::from_utf8` → `validUtf8`,
@@ -95,53 +100,64 @@ def readLineWithEol (reader : Bytes) (eol : EOL) : LineRead × Bytes :=
 
 /-! ## the local variables of `cut_lines_forward_only` -/
 
+/-- `i32::checked_add`: `None` when the sum does not fit an `i32` -/
+def i32CheckedAdd (x y : Int) : Option Int :=
+  if i32Min ≤ x + y ∧ x + y ≤ i32Max then Option.some (x + y) else Option.none
+
 structure Vars where
-  /-- l.16 (`i32`) -/
+  /-- l.18 (`i32`) -/
   lineIdx : Int := 0
-  /-- l.17 keep track of which bounds have been used -/
+  /-- l.19 -/
+  pastLastIndex : Bool := false
+  /-- l.20 keep track of which bounds have been used -/
   boundsIdx : Nat := 0
-  /-- l.18 -/
+  /-- l.21 -/
   addNewlineNext : Bool := false
   deriving DecidableEq, Repr, Inhabited
 
 /-- `if opt.join && bounds_idx != opt.bounds.len() { stdout.write_all(&[opt.eol as u8])?; }`
-    (l.37-39, 60-62, 107-109) -/
+    (l.43-45, 72-74, 119-121) -/
 def joinWrite (opt : Opt) (boundsIdx : Nat) : Run :=
   if opt.join && boundsIdx != opt.bounds.list.length then Run.ok [opt.eol.byte] else Run.empty
 
-/-! ## `while bounds_idx < opt.bounds.len()` (l.29-69) -/
+/-! ## `while bounds_idx < opt.bounds.len()` (l.35-81) -/
 
-/-- the body of the loop (l.30-68): what is written, the variables, and whether the loop goes on
+/-- the body of the loop (l.36-80): what is written, the variables, and whether the loop goes on
     (`continue`: `true`) or is left (`break`: `false`) -/
 def innerBody (opt : Opt) (line : Bytes) (v : Vars) : Run × Vars × Bool :=
-  match opt.bounds.list[v.boundsIdx]? with                              -- 30 opt.bounds.get(bounds_idx)
-  | Option.none => (Run.panic, v, false)                                -- 30 .unwrap()
-  | Option.some (.filler f) =>                                          -- 33
-    let r1 := Run.ok f                                                  -- 34 stdout.write_all(f)?
-    let v := { v with boundsIdx := v.boundsIdx + 1 }                    -- 35
-    let r2 := joinWrite opt v.boundsIdx                                 -- 37-39
-    (r1.seq r2, v, true)                                                -- 41 continue
-  | Option.some (.bound b) =>                                           -- 43
-    if (b.matches v.lineIdx).getD false then                            -- 46 b.matches(line_idx).unwrap_or(false)
-      let r1 := if v.addNewlineNext then Run.ok [opt.eol.byte] else Run.empty   -- 47-49
-      let r2 := Run.ok line                                             -- 51 stdout.write_all(line.as_bytes())?
-      let v := { v with addNewlineNext := true }                        -- 52
-      if b.r = Side.some v.lineIdx then                                 -- 54
-        -- we exhausted the use of that bound, move on
-        let v := { v with boundsIdx := v.boundsIdx + 1 }                -- 56
-        let v := { v with addNewlineNext := false }                     -- 57
-        let r3 := joinWrite opt v.boundsIdx                             -- 60-62
-        ((r1.seq r2).seq r3, v, true)                                   -- 64 continue
+  match opt.bounds.list[v.boundsIdx]? with                              -- 36 opt.bounds.get(bounds_idx)
+  | Option.none => (Run.panic, v, false)                                -- 36 .unwrap()
+  | Option.some (.filler f) =>                                          -- 39
+    let r1 := Run.ok f                                                  -- 40 stdout.write_all(f)?
+    let v := { v with boundsIdx := v.boundsIdx + 1 }                    -- 41
+    let r2 := joinWrite opt v.boundsIdx                                 -- 43-45
+    (r1.seq r2, v, true)                                                -- 47 continue
+  | Option.some (.bound b) =>                                           -- 49
+    let isMatch : Bool :=
+      if v.pastLastIndex then                                           -- 52
+        decide (b.r = Side.cont)                                        -- 53 b.r == Side::Continue
       else
-        (r1.seq r2, v, false)                                           -- 68 break
+        (b.matches v.lineIdx).getD false                                -- 55 b.matches(line_idx).unwrap_or(false)
+    if isMatch then                                                     -- 58
+      let r1 := if v.addNewlineNext then Run.ok [opt.eol.byte] else Run.empty   -- 59-61
+      let r2 := Run.ok line                                             -- 63 stdout.write_all(line.as_bytes())?
+      let v := { v with addNewlineNext := true }                        -- 64
+      if !v.pastLastIndex && decide (b.r = Side.some v.lineIdx) then    -- 66
+        -- we exhausted the use of that bound, move on
+        let v := { v with boundsIdx := v.boundsIdx + 1 }                -- 68
+        let v := { v with addNewlineNext := false }                     -- 69
+        let r3 := joinWrite opt v.boundsIdx                             -- 72-74
+        ((r1.seq r2).seq r3, v, true)                                   -- 76 continue
+      else
+        (r1.seq r2, v, false)                                           -- 80 break
     else
-      (Run.empty, v, false)                                             -- 68 break
+      (Run.empty, v, false)                                             -- 80 break
 
-/-- the loop (l.29-69) -/
+/-- the loop (l.35-81) -/
 def innerWhile (opt : Opt) (line : Bytes) : Nat → Vars → Run × Vars
   | 0, v => (Run.hang, v)
   | fuel + 1, v =>
-    if v.boundsIdx < opt.bounds.list.length then                        -- 29
+    if v.boundsIdx < opt.bounds.list.length then                        -- 35
       let b := innerBody opt line v
       if b.2.2 then                                                     -- continue
         let l := innerWhile opt line fuel b.2.1
@@ -149,73 +165,72 @@ def innerWhile (opt : Opt) (line : Bytes) : Nat → Vars → Run × Vars
       else (b.1, b.2.1)                                                 -- break
     else (Run.empty, v)
 
-/-! ## `while let Some(line) = read_line_with_eol(stdin, &mut line_buf, opt.eol)` (l.19-75) -/
+/-! ## `while let Some(line) = read_line_with_eol(stdin, &mut line_buf, opt.eol)` (l.22-87) -/
 
 def readWhile (opt : Opt) : Nat → Bytes → Vars → Run × Vars
   | 0, _, v => (Run.hang, v)
   | fuel + 1, stdin, v =>
-    match readLineWithEol stdin opt.eol with                            -- 19
+    match readLineWithEol stdin opt.eol with                            -- 22
     | (.none, _) => (Run.empty, v)                                      -- the loop ends
     | (line, stdin) =>
-      match checkedAddI32 v.lineIdx 1 with                              -- 20 line_idx += 1  (i32)
-      | .panic => (Run.panic, v)
-      | .hang => (Run.hang, v)
-      | .ok lineIdx =>
-        let v := { v with lineIdx := lineIdx }
-        match line with                                                 -- 22 let line = line?;
-        | .none => (Run.empty, v)                                       -- (not reached: matched above)
-        | .someErr => (Run.fail, v)                                     -- 22 `?`
-        | .someOk line =>
-          let line := stripEol opt.eol.byte line                        -- 24 strip_suffix(eol).unwrap_or(line)
-          -- 26-28 Print the matching fields. Fields are ordered but can still be
-          -- duplicated, e.g. 1-2,2,3 , so we may have to print the same line multiple times
-          let w := innerWhile opt line (opt.bounds.list.length + 1) v   -- 29-69
-          let v := w.2
-          if v.boundsIdx == opt.bounds.list.length then                 -- 71
-            -- no need to read the rest, we don't have other bounds to test
-            (w.1, v)                                                    -- 73 break
-          else
-            let l := readWhile opt fuel stdin v
-            (w.1.seq l.1, l.2)
+      let v :=
+        match i32CheckedAdd v.lineIdx 1 with                            -- 23 line_idx.checked_add(1)
+        | Option.some n => { v with lineIdx := n }                      -- 24
+        | Option.none => { v with pastLastIndex := true }               -- 25
+      match line with                                                   -- 28 let line = line?;
+      | .none => (Run.empty, v)                                         -- (not reached: matched above)
+      | .someErr => (Run.fail, v)                                       -- 28 `?`
+      | .someOk line =>
+        let line := stripEol opt.eol.byte line                          -- 30 strip_suffix(eol).unwrap_or(line)
+        -- 32-34 Print the matching fields. Fields are ordered but can still be
+        -- duplicated, e.g. 1-2,2,3 , so we may have to print the same line multiple times
+        let w := innerWhile opt line (opt.bounds.list.length + 1) v     -- 35-81
+        let v := w.2
+        if v.boundsIdx == opt.bounds.list.length then                   -- 83
+          -- no need to read the rest, we don't have other bounds to test
+          (w.1, v)                                                      -- 85 break
+        else
+          let l := readWhile opt fuel stdin v
+          (w.1.seq l.1, l.2)
 
-/-! ## "The input is exhausted. Did we output every bound?" (l.78-110) -/
+/-! ## "The input is exhausted. Did we output every bound?" (l.90-122) -/
 
-/-- l.79-102: the value of `let output: &[u8] = match bof { … }` (`Option.none` = `bail!`) and
+/-- l.91-114: the value of `let output: &[u8] = match bof { … }` (`Option.none` = `bail!`) and
     `add_newline_next` afterwards -/
 def epilogueOutput (opt : Opt) (bof : BoF) (addNewlineNext : Bool) : Option Bytes × Bool :=
   match bof with
-  | .filler f => (Option.some f, addNewlineNext)                        -- 80
-  | .bound b =>                                                         -- 81
-    if addNewlineNext then                                              -- 82
+  | .filler f => (Option.some f, addNewlineNext)                        -- 92
+  | .bound b =>                                                         -- 93
+    if addNewlineNext then                                              -- 94
       -- some lines of this bound have been printed already
-      let addNewlineNext := false                                       -- 84
-      if b.r ≠ Side.cont then                                           -- 86
+      let addNewlineNext := false                                       -- 96
+      if b.r ≠ Side.cont then                                           -- 98
         -- not good, the input ended in the middle of the range
-        (Option.none, addNewlineNext)                                   -- 89 bail!
-      else (Option.some [], addNewlineNext)                             -- 92 &[]
+        (Option.none, addNewlineNext)                                   -- 101 bail!
+      else (Option.some [], addNewlineNext)                             -- 104 &[]
     else
       match b.fallback with
-      | Option.some fallback => (Option.some fallback, addNewlineNext)  -- 93-95
+      | Option.some fallback => (Option.some fallback, addNewlineNext)  -- 105-107
       | Option.none =>
         match opt.fallbackOob with
-        | Option.some genericFallback => (Option.some genericFallback, addNewlineNext)   -- 96-97
-        | Option.none => (Option.none, addNewlineNext)                  -- 99 bail!
+        | Option.some genericFallback => (Option.some genericFallback, addNewlineNext)   -- 108-109
+        | Option.none => (Option.none, addNewlineNext)                  -- 111 bail!
 
-/-- `while let Some(bof) = opt.bounds.get(bounds_idx)` (l.78-110) -/
+/-- `while let Some(bof) = opt.bounds.get(bounds_idx)` (l.90-122) -/
 def epilogueWhile (opt : Opt) : Nat → Vars → Run × Vars
   | 0, v => (Run.hang, v)
   | fuel + 1, v =>
-    match opt.bounds.list[v.boundsIdx]? with                            -- 78
+    match opt.bounds.list[v.boundsIdx]? with                            -- 90
     | Option.none => (Run.empty, v)                                     -- the loop ends
     | Option.some bof =>
-      let p := epilogueOutput opt bof v.addNewlineNext                  -- 79-102
+      let p := epilogueOutput opt bof v.addNewlineNext                  -- 91-114
       let v := { v with addNewlineNext := p.2 }
       match p.1 with
-      | Option.none => (Run.fail, v)                                    -- 89 / 99 bail!
+      | Option.none => (Run.fail, v)                                    -- 101 / 111 bail!
       | Option.some output =>
-        let r1 := Run.ok output                                         -- 104 stdout.write_all(output)?
-        let v := { v with boundsIdx := v.boundsIdx + 1 }                -- 105
-        let r2 := joinWrite opt v.boundsIdx                             -- 107-109
+        let r1 := Run.ok output                                         -- 116 stdout.write_all(output)?
+        let v := { v with boundsIdx := v.boundsIdx + 1 }                -- 117
+        let r2 := joinWrite opt v.boundsIdx                             -- 119-121
         let l := epilogueWhile opt fuel v
         ((r1.seq r2).seq l.1, l.2)
 
@@ -223,39 +238,40 @@ end LinesLoop
 
 open LinesLoop
 
-/-- `cut_lines_forward_only(stdin, stdout, opt)` (cut_lines.rs:10-115), statement by statement,
+/-- `cut_lines_forward_only(stdin, stdout, opt)` (cut_lines.rs:10-127), statement by statement,
     on a fault-free reader that delivers `stdin` -/
 def cutLinesForwardOnlyLoop (opt : Opt) (stdin : Bytes) : Run :=
-  let v : Vars := { lineIdx := 0, boundsIdx := 0, addNewlineNext := false }   -- 16-18
-  let w := readWhile opt (stdin.length + 1) stdin v                     -- 19-75
-  let e := epilogueWhile opt (opt.bounds.list.length + 1) w.2           -- 78-110
-  (w.1.seq e.1).seq (Run.ok [opt.eol.byte])                             -- 112 stdout.write_all(&[opt.eol as u8])?
+  let v : Vars :=
+    { lineIdx := 0, pastLastIndex := false, boundsIdx := 0, addNewlineNext := false }   -- 18-21
+  let w := readWhile opt (stdin.length + 1) stdin v                     -- 22-87
+  let e := epilogueWhile opt (opt.bounds.list.length + 1) w.2           -- 90-122
+  (w.1.seq e.1).seq (Run.ok [opt.eol.byte])                             -- 124 stdout.write_all(&[opt.eol as u8])?
 
 namespace LinesLoop
 
-/-- `cut_lines(stdin, stdout, opt)` (cut_lines.rs:117-137) -/
+/-- `cut_lines(stdin, stdout, opt)` (cut_lines.rs:129-149) -/
 def cutLinesLit (opt : Opt) (stdin : Bytes) : Run :=
-  let buffer := stdin                                                   -- 118-119 stdin.read_to_end(&mut buffer)?
-  if !validUtf8 buffer then Run.fail                                    -- 120 std::str::from_utf8(&buffer)?
+  let buffer := stdin                                                   -- 130-131 stdin.read_to_end(&mut buffer)?
+  if !validUtf8 buffer then Run.fail                                    -- 132 std::str::from_utf8(&buffer)?
   else
     let bufferAsStr := buffer
-    let boundsAsRanges : List Range := []                               -- 121
-    let compressedLineBuf : Bytes := []                                 -- 122
-    let bufferAsStr := stripEol opt.eol.byte bufferAsStr                -- 124-126
-    -- 128 Just use cut_str, we're cutting a (big) string whose delimiter is newline
-    (cutStr bufferAsStr opt boundsAsRanges compressedLineBuf [opt.eol.byte]).1   -- 129-136
+    let boundsAsRanges : List Range := []                               -- 133
+    let compressedLineBuf : Bytes := []                                 -- 134
+    let bufferAsStr := stripEol opt.eol.byte bufferAsStr                -- 136-138
+    -- 140 Just use cut_str, we're cutting a (big) string whose delimiter is newline
+    (cutStr bufferAsStr opt boundsAsRanges compressedLineBuf [opt.eol.byte]).1   -- 141-148
 
 end LinesLoop
 
-/-- `read_and_cut_lines(stdin, stdout, opt)` (cut_lines.rs:139-157) -/
+/-- `read_and_cut_lines(stdin, stdout, opt)` (cut_lines.rs:151-169) -/
 def readAndCutLinesLoop (opt : Opt) (stdin : Bytes) : Run :=
-  -- 144-146 If bounds cut from left to right and do not internally overlap (e.g. 1:2,2,4:5,8)
+  -- 156-158 If bounds cut from left to right and do not internally overlap (e.g. 1:2,2,4:5,8)
   -- then we can use a streaming algorithm and avoid allocating everything in memory.
   let canBeStreamed :=
-    !opt.complement && !opt.compressDelimiter && isForwardOnly opt.bounds.list   -- 147-148
-  if canBeStreamed then                                                 -- 150
-    (cutLinesForwardOnlyLoop opt stdin).seq Run.empty                   -- 151 …?; 156 Ok(())
+    !opt.complement && !opt.compressDelimiter && isForwardOnly opt.bounds.list   -- 159-160
+  if canBeStreamed then                                                 -- 162
+    (cutLinesForwardOnlyLoop opt stdin).seq Run.empty                   -- 163 …?; 168 Ok(())
   else
-    (cutLinesLit opt stdin).seq Run.empty                               -- 153 …?; 156 Ok(())
+    (cutLinesLit opt stdin).seq Run.empty                               -- 165 …?; 168 Ok(())
 
 end Tuc
